@@ -3,6 +3,7 @@ import PartituraModel.Model.IterProto
 import PartituraModel.Model.RefHeap
 import PartituraModel.Model.ArgForms
 import PartituraModel.Model.StavesCache
+import PartituraModel.Model.ArrayView
 
 open Wire Model.IterProto
 open Model.RefHeap (Attr Heap variant)
@@ -143,6 +144,12 @@ def parsePerfArg : P PerfArg := do
   | "other" => pure PerfArg.other
   | _ => P.fail
 
+def parseRow : P Model.ArrayView.Row := do
+  let o ← int; let d ← int; let p ← int
+  pure { on := o, dur := d, pitch := p }
+
+def fmtRow (r : Model.ArrayView.Row) : String := fmtTuple [fmtInt r.on, fmtInt r.dur, fmtInt r.pitch]
+
 def fmtTracks (l : List (Option Int)) : String := fmtList (fmtOpt fmtInt) l
 
 def fmtPPart (pp : PPart) : String :=
@@ -208,6 +215,16 @@ def handle (ts : List String) : String :=
       "export=" ++ fmtOpt (fun pps => fmtList fmtPPart pps ++ ":" ++ toString (exportTracks pps).length ++ ":" ++
                               (if (exportTracks pps).length = 1 then "0" else "1")) (perfParts a) ++
       ";ctor=" ++ fmtOpt (fun pps => fmtList fmtPPart pps ++ ":" ++ toString (numTracks pps)) (perfCtor e a)
+    | none => "bad-request"
+  | "slice" :: rest =>
+    -- slice <clip> <start> <end> <ticks per unit> <rows>: the argument array afterwards | the result | F(resh) / S(hared)
+    match Wire.run (do let c ← bool; let s ← int; let e ← int; let q ← int; let rows ← list parseRow
+                       pure (c, s, e, q, rows)) rest with
+    | some (c, s, e, q, rows) =>
+      match Model.ArrayView.sliceRows c s e q [rows] 0 with
+      | some (bufs, r) =>
+        fmtList fmtRow (bufs.getD 0 []) ++ "|" ++ fmtList fmtRow (bufs.getD r []) ++ "|" ++ (if r < 1 then "S" else "F")
+      | none => "err"
     | none => "bad-request"
   | _ => "bad-request"
 
